@@ -6,7 +6,7 @@ CONSTANTS
   WithScalar = FALSE
   WithRandom = TRUE
 INVARIANT BoundToName
-INVARIANT NeverHalfBound
+INVARIANT HalfBoundOnlyByPartialDicts
 INVARIANT RandomIffDistribution
 INVARIANT Dump
 PROPERTY RejectedBindsNothing
